@@ -8,6 +8,7 @@ import PhyVerif.Spec.C13c
 import PhyVerif.Lemmas.C13c
 import PhyVerif.Model.C13d
 import PhyVerif.Lemmas.C13d
+import PhyVerif.Model.C14
 /-!
 # C13 — ALF export writes consistent object tables that load back to the same spikes
 Only property theorems + non-vacuity examples; proofs in `Lemmas/C13.lean`.
@@ -227,12 +228,16 @@ theorem export_ids (cfg : Cfg) (v : View) (gen : Nat → String) (src : FDir) (h
   Lemmas.export_ids cfg v gen src h attr srcName hattr e he hrows
 
 /-- THE VIEW OF A SOURCE GIVEN IN SAMPLES HAS ITS TIMES IN SECONDS, AND THESE ARE WHAT IS EXPORTED.  The view the
-loader builds from `spike_times.npy` (`viewOfFile rate (.inSamples s) rest`: samples and times both come out of
-`_load_spike_samples`) has `samples = s` and `times = timesOf rate s = s / rate`; the conversion of that view leaves
-exactly these in `spikes.samples[.label].npy` and `spikes.times[.label].npy`, and every exported time multiplied by the
-sampling rate is the exported sample (`rate ≠ 0`, see `times_in_seconds`). -/
+loader builds from `spike_times.npy` is `viewOfFile rate (.inSamples s) rest` (samples and times both come out of
+`_load_spike_samples`).  The first two conjuncts only UNFOLD that definition (`samples = s`,
+`times = timesOf rate s = s / rate`; both hold by `rfl` — they record what the model says, their tie to the real loader
+is the correspondence run of C04/C13 on sources given in samples, not this theorem).  The content is in the other three:
+the conversion of that view leaves exactly these in `spikes.samples[.label].npy` and `spikes.times[.label].npy`, and every
+exported time multiplied by the sampling rate is the exported sample.  `0 < rate`: the sampling rate of params.py is a
+positive number (a zero rate makes the real division produce inf/nan with a RuntimeWarning; a negative one would
+turn non-decreasing samples into DEcreasing times, which the loader's monotonicity assertion rejects). -/
 theorem source_in_samples_exports_seconds (cfg : Cfg) (rate : Rat) (s : List Int) (rest : View) (gen : Nat → String)
-    (fs : FS) (h : Convertible cfg fs) (hr : rate ≠ 0) :
+    (fs : FS) (h : Convertible cfg fs) (hr : 0 < rate) :
     (viewOfFile rate (.inSamples s) rest).samples = s ∧
     (viewOfFile rate (.inSamples s) rest).times = timesOf rate s ∧
     (convertFS cfg (viewOfFile rate (.inSamples s) rest) gen fs).fs.out.lookup
@@ -251,23 +256,33 @@ theorem source_in_seconds_exports_verbatim (cfg : Cfg) (rate : Rat) (t : List Ra
 
 /-- LOADING THE OUTPUT DIRECTORY OF THE CONVERSION.  `project I out` is the WHOLE output directory of `convertFS` as the
 loader model of C04 sees it (every file kept: names joined by dots, rows turned into shaped arrays; `I` says what the
-rows of quantities owned by C09/C14 hold and how a time in seconds is written as a cell).  For every convertible source
+rows of quantities owned by C09/C14 hold and how a time in seconds is written as a cell).  `I` is WELL-FORMED (`hI`: a
+row holds as many cells as its trailing dimensions say — an `I` with empty rows would "load" a channel map of shape
+`[n]` without data) and reads row `i` of `channels.rawInd` as the one cell that `make_channel_objects` writes there
+(`hraw`: `C14.exportRawInd` of the view's channel map and probe labels, alf.py:222-243).  For every convertible source
 directory (`Convertible`, conversion into an empty target), label, configuration, identifier generator and view that
 satisfies what the loader asserts (`ViewOK`, non-decreasing spike times — as cells: `hmono`), with at least two spikes (a
 first dimension of 1 is squeezed away by the loader), whose `spike_clusters.npy` / `spike_templates.npy` hold the view's
 ids (they are what the view was loaded from) below 65536 (the quantifier's bound), C04's `load` on the projected output
-SUCCEEDS and shows: the view's spike times (seconds, verbatim), samples, spike clusters and spike templates; as channel
+SUCCEEDS and shows: the view's spike times (seconds, verbatim), samples, spike clusters and spike templates; as CHANNEL
+MAP the 1-D vector `C14.exportRawInd v.channelMap v.channelProbes` (the view's channel map re-expressed per probe; for a
+single probe it is the view's channel map itself by `C14.rawInd_inverts_merge`); as channel
 positions the source's `channel_positions.npy` (read exactly as the loader reads it in the source: `atleast 2 ∘ squeeze ∘
-scrub`); as amplitudes, channel map, templates and template channels the arrays the conversion computed
-(`spikes.amps`, `channels.rawInd`, `templates.waveforms`, `templates.waveformsChannels`; their VALUES are C09/C14's:
-`rawInd` is the source's channel map for a single probe by `C14.rawInd_inverts_merge`).  None of the other files of the
-output (up to 22: `clusters.*`, `spikes.depths`, `templates.amps`, `channels.probes/labels`, `params.py`,
-`_kilosort_whitening.matrix.npy`, `_phy_spikes_subset.*`, `drift*`, `cluster_KSLabel.tsv`) is picked up by any of these
-searches, for ANY label (`Lemmas.noOther_spec`: the literal prefix of every loader pattern departs from the stem of every
-other possible output name; `Lemmas.S_inj`: the names on disk are pairwise different). -/
+scrub`); as amplitudes, templates and template channels the FILES the conversion computed (`spikes.amps`,
+`templates.waveforms`, `templates.waveformsChannels`, as arrays of `I`-cells: their VALUES are C09/C14's and are not
+interpreted here — for these three the theorem says which file is found and how it is reshaped, no more).  None of the
+other files of the output (up to 22: `clusters.*`, `spikes.depths`, `templates.amps`, `channels.probes/labels`,
+`params.py`, `_kilosort_whitening.matrix.npy`, `_phy_spikes_subset.*`, `drift*`, `cluster_KSLabel.tsv`) is picked up by
+any of these searches, for ANY label (`Lemmas.noOther_spec`: the literal prefix of every loader pattern departs from the
+stem of every other possible output name; `Lemmas.S_inj`: the names on disk are pairwise different).
+The driver's `Interp` (`Driver/C13.lean: drvInterp`) meets `hI` and `hraw`, and the harness compares the channel map of
+this loader model with the channel map of the REAL reload of the REAL output directory. -/
 theorem convert_output_loads (inv : C04.Arr → C04.Arr) (I : Interp) (cfg : Cfg) (v : View) (gen : Nat → String) (src : FDir)
     (h : Convertible cfg ⟨src, []⟩) (hv : ViewOK v) (h2 : 2 ≤ v.samples.length)
     (hmono : C04.monotone ((v.times.map I.encQ).map C04.Cell.num) = true)
+    (hI : ∀ w i, (I.cells w i).length = (I.trail w).prod)
+    (hraw : ∀ i, i < v.channelProbes.length →
+      I.cells "rawInd" i = [.num ((C14.exportRawInd v.channelMap v.channelProbes).getD i 0)])
     (esc est epos : Entry)
     (hsc : src.lookup ["spike_clusters", "npy"] = some esc)
     (hscr : esc.rows = (v.spikeClusters.map Int.ofNat).map Row.z)
@@ -281,13 +296,13 @@ theorem convert_output_loads (inv : C04.Arr → C04.Arr) (I : Interp) (cfg : Cfg
       lv.spikeClusters = vec (v.spikeClusters.map Int.ofNat) ∧
       lv.spikeTemplates = vec (v.spikeTemplates.map Int.ofNat) ∧
       lv.amplitudes = some (C04.squeeze (C04.scrub (arrOf I (fresh (spikeAmps v))))) ∧
-      lv.channelMap = C04.atleast 1 (C04.squeeze (C04.scrub (arrOf I (fresh (tokRows "rawInd" v.channelProbes.length))))) ∧
+      lv.channelMap = vec (C14.exportRawInd v.channelMap v.channelProbes) ∧
       lv.channelPositions = C04.atleast 2 (C04.squeeze (C04.scrub (arrOf I epos))) ∧
       lv.templates = some (C04.zeroNanTemplates (C04.atleast 3 (C04.squeeze
         (arrOf I (fresh (tokRows "templates.waveforms" v.nTemplates)))))) ∧
       lv.templateCols = some (C04.squeeze (C04.scrub
         (arrOf I (fresh (tokRows "templates.waveformsChannels" v.nTemplates))))) :=
-  Lemmas.convert_output_loads inv I cfg v gen src h hv h2 hmono esc est epos hsc hscr hst hstr hpos hidc hidt
+  Lemmas.convert_output_loads inv I cfg v gen src h hv h2 hmono hI hraw esc est epos hsc hscr hst hstr hpos hidc hidt
 
 /-! Non-vacuity: a curated 3-spike source with a temporary file and raw data, label `p0`. -/
 def exView : View :=
@@ -348,13 +363,23 @@ example : uuidOKb 2 ["uuids", "a", "b"] = true ∧ uuidOKb 2 ["uuids", "a", "a"]
 def exI : Interp :=
   { encQ := fun q => (q * 2).floor, cells := fun w i => if w = "pos" then [.num (10 * i), .num (10 * i + 1)] else [.num i],
     trail := fun w => if w = "pos" then [2] else [] }
+-- `exI` is well-formed and reads `channels.rawInd` as the raw indices of the view (hypotheses `hI`, `hraw`)
+example : ∀ w i, (exI.cells w i).length = (exI.trail w).prod := by
+  intro w i; by_cases h : w = "pos" <;> simp [exI, h]
+example : C14.exportRawInd exView.channelMap exView.channelProbes = [0, 1] := by decide +kernel
+example : ∀ i, i < exView.channelProbes.length →
+    exI.cells "rawInd" i = [.num ((C14.exportRawInd exView.channelMap exView.channelProbes).getD i 0)] := by
+  decide +kernel
+-- two probes: the second probe's raw indices restart at 0
+example : C14.exportRawInd [0, 1, 2, 3] [0, 0, 1, 1] = [0, 1, 0, 1] := by decide +kernel
 example : (viewOfFile 30000 (.inSamples [0, 15000, 45000]) exView).times = exView.times := by decide +kernel
+example : (0 : Rat) < exView.rate := by decide +kernel
 example : C04.monotone ((exView.times.map exI.encQ).map C04.Cell.num) = true := by decide +kernel
 -- the whole 22-file output directory, loaded: the loader finds the labelled files among all the others
 example : (project exI (convertFS exCfg exView exGen ⟨exSrc, []⟩).fs.out).length = 22 := by decide +kernel
 example : (match C04.load id (project exI (convertFS exCfg exView exGen ⟨exSrc, []⟩).fs.out) with
     | .ok (lv, _) => lv.times == .stored (vec [0, 1, 3]) && lv.samples == .file (vec [0, 15000, 45000]) &&
-        lv.spikeClusters == vec [0, 2, 2] && lv.channelPositions == ⟨[2, 2], [.num 0, .num 1, .num 10, .num 11]⟩
+        lv.spikeClusters == vec [0, 2, 2] && lv.channelMap == vec [0, 1] && lv.channelPositions == ⟨[2, 2], [.num 0, .num 1, .num 10, .num 11]⟩
     | .error _ => false) = true := by decide +kernel
 
 end PhyVerif.C13
